@@ -553,5 +553,10 @@ def run(ctx: core.Ctx) -> int:
     _tmp19.check_python_block(ctx, ctx.parse("py/formak/python.py"))
     from . import c13 as _c13nv
     _c13nv.named_arrays(ctx, ("vec",))
+    # compiling the reference model neither rewrites its expressions nor writes into the shared module-level model (shared with C01 / C17)
+    from . import c01 as _c01nr, c17 as _c17ip
+    _pm19 = ctx.parse("py/formak/python.py")
+    _c01nr.py_no_rewrite(ctx, _pm19, "py/formak/python.py")
+    _c17ip.input_pure(ctx, _pm19)
     return core.finish(ctx, explanation="def-use inlining of the reference model's module-level assignments into terms; wiring compared modulo "
                                         "commutativity", **META)
